@@ -11,6 +11,25 @@ PY = "/venv/bin/python"
 
 # property -> (technique, level text, level note, design ref)
 CLAIMED = {
+    "C05": ("TLA+ state machine of a session of DimArrays in registers (spec/Workspace.tla: 16 actions incl. in-place ones and cache-populating "
+            "queries; invariant AllWellFormed) model-checked by TLC; every edge of the bounded graphs and seeded random programs replayed with "
+            "well-formedness observation of every constructed DimArray and the fresh-twin rule; constructor forms from spec/MC_C05.tla",
+            "TLC explores the machine to depth 2 over the full menu and depth 3 (thorough 4) over the cached-state menu (history abstracted by a "
+            "'warm' flag so that queries are not self-loops), and 800 (20000) random programs of depth 8 (12). Replay: DimArray.__init__ is wrapped so "
+            "that every intermediate array is checked for one 1-d axis per dimension, matching lengths and distinct non-empty names; every step is "
+            "also executed on freshly constructed twins of its operands and must answer identically (history independence); all registers are compared "
+            "with the expected abstract state. 11 constructor forms must agree and 2 defect classes must be rejected in 3 forms.",
+            "Trusted: TLC, projection/concretisation, NumPy. In-place actions only on registers alone in their alias group (sharing is neither promised nor forbidden).",
+            "5 (C05)"),
+    "C15": ("Action properties OperandsUnchanged and CopyIndependent of the Workspace machine (spec/Workspace.tla) model-checked by TLC and every "
+            "generated program replayed with all registers compared after each step; operand-watch sweep enumerated from spec/MC_C15.tla",
+            "Same exploration as C05 (every register, not only the result, is compared after every step, so a non in-place action that touches an "
+            "operand or a bystander, or a copy that is not independent, shows up), plus 92 operation classes x 2 operand configurations (unsorted axes, "
+            "metadata with mutable values, live transpose / squeeze / newaxis siblings sharing Axis objects) with deep snapshots before and after: "
+            "indexing, arithmetic, comparisons, reductions, reshaping, reindexing, aligning with and without sort, sort_axis, interpolation, stack, "
+            "concatenate, serialisation, Dataset construction and Dataset operations, copy-then-mutate in both directions.",
+            "Trusted: TLC, snapshots, NumPy. Dataset.copy() is not required to deep-copy values or metadata values (only DimArray.copy() is).",
+            "5 (C15)"),
     "C14": ("TLA+ specification of which variables a Dataset-wide operation affects, the resulting dims and metadata (spec/MC_C14.tla) enumerated "
             "by TLC; each scenario executed on a real Dataset and every variable compared with the DimArray operation (affected) or the original "
             "(unaffected), plus the shared-axes rule on the result",
